@@ -73,12 +73,15 @@ package engine
 // every early exit reports an error, and while the join continues the number of partial solutions stays within
 // the created-fact limit.
 //@ func (e *engine) oneStepEvalClause(clause)
-//@   requires e != nil
+//@   requires e != nil && e.store != nil
 //@   modifies nothing
 //@   opt assumeframe
 //@   opt nosafety
 //@   guard return in loop 1: err != nil
 //@   guard return in loop 3: err != nil
+//@   guard call EvalAtom in loop 3: arg0 == clause.Head
+//@   loop 1 invariant e.store != nil
+//@   loop 2 invariant e.store != nil
 //@   loop 2 atback e.options.createdFactLimit > 0 ==> len(newsolutions) <= e.options.createdFactLimit
 
 // A premise is recursive for a stratum when it is a positive atom (bare or temporally annotated) over a predicate
@@ -169,6 +172,8 @@ package engine
 //@ func (e *engine) oneStepEvalPremise(premise, subst, clause)
 //@   requires e != nil && e.store != nil
 //@   opt nosafety
+//@   opt assumeframe
+//@   modifies everything except engine.store
 //@   ensures premise is ast.NegAtom ==> (err != nil) == errNeg((premise as ast.NegAtom).Atom, factstore.view(e.store), subst) && (err == nil ==> result == solNeg((premise as ast.NegAtom).Atom, factstore.view(e.store), subst))
 //@   ensures premise is ast.Eq ==> (err != nil) == errEq((premise as ast.Eq).Left, (premise as ast.Eq).Right, subst) && (err == nil ==> result == solEq((premise as ast.Eq).Left, (premise as ast.Eq).Right, subst))
 //@   ensures premise is ast.Ineq ==> (err != nil) == errIneq((premise as ast.Ineq).Left, (premise as ast.Ineq).Right, subst) && (err == nil ==> result == solIneq((premise as ast.Ineq).Left, (premise as ast.Ineq).Right, subst))
@@ -246,3 +251,10 @@ package engine
 //@   opt nosafety
 //@   loop 1 invariant len(solutions) == rangeindex + 1
 //@   loop 1 atexit len(solutions) == len(nsubsts)
+
+// C20: both evaluators instantiate a rule head through functional.EvalAtom (substitution AND evaluation of the function
+// expressions in the head), once per solution of the body.
+//@ func (e naiveEngine) oneStepEvalClause(clause)
+//@   requires e.store != nil
+//@   opt nosafety
+//@   guard call EvalAtom in loop 3: arg0 == clause.Head
